@@ -425,6 +425,15 @@ package render
 
 //@ func mcToTriangles
 //@   property C07
+//@   id every-corner-inside
+//@   opt split
+//@   opt prune
+//@   requires v[0] < x && v[1] < x && v[2] < x && v[3] < x && v[4] < x && v[5] < x && v[6] < x && v[7] < x
+//@   ensures [emits-nothing] len(r) == 0
+//@ end
+
+//@ func mcToTriangles
+//@   property C07
 //@   id no-corner-inside
 //@   opt split
 //@   opt prune
@@ -469,6 +478,15 @@ package render
 //@   opt prune
 //@   requires v[3] == x
 //@   requires v[0] <= x - epsilon && v[1] <= x - epsilon && v[2] <= x - epsilon
+//@   ensures [emits-nothing] len(r) == 0
+//@ end
+
+//@ func msToLines
+//@   property C07
+//@   id every-corner-inside
+//@   opt split
+//@   opt prune
+//@   requires v[0] < x && v[1] < x && v[2] < x && v[3] < x
 //@   ensures [emits-nothing] len(r) == 0
 //@ end
 
